@@ -59,9 +59,12 @@ func vpC13Item(shape int, id IRI) Item {
 		x = vpPopulated(vpTypeIndex("OrderedCollection"))
 	case 9:
 		x = vpPopulated(vpTypeIndex("Place"))
-	default: // a member whose own lists name an addressee twice
+	case 10: // a member whose own lists name an addressee twice
 		z := IRI("https://h.ex/zz")
 		x = &Object{Type: NoteType, To: ItemCollection{z, z}, Tag: ItemCollection{&Object{ID: z, Type: NoteType}, z}}
+	default: // a member that carries links whose type is not one of the vocabulary's two link types, or none
+		x = &Object{Type: NoteType, Tag: ItemCollection{&Link{Type: "Hashtag", Href: "https://h.ex/tags/x", Name: NaturalLanguageValues{{Ref: NilLangRef, Value: Content("#x")}}}},
+			URL: &Link{Href: "https://h.ex/page", MediaType: "text/html"}, Icon: &Link{ID: "https://h.ex/l", Href: "https://h.ex/i.png"}}
 	}
 	vpSetID(x, id)
 	return x
@@ -259,8 +262,8 @@ func vpH_C13_step_coll()       { vpC13Step(2, 2, 2) }
 func vpH_C13_step_ocoll()      { vpC13Step(3, 2, 2) }
 func vpH_C13_step_page()       { vpC13Step(4, 2, 2) }
 func vpH_C13_step_opage()      { vpC13Step(5, 2, 2) }
-func vpH_C13_step_rich_items() { vpC13Step(0, 1, -7) }
-func vpH_C13_step_rich_ocoll() { vpC13Step(3, 1, -7) }
+func vpH_C13_step_rich_items() { vpC13Step(0, 1, -8) }
+func vpH_C13_step_rich_ocoll() { vpC13Step(3, 1, -8) }
 
 // ids that differ only in host, only in port, only in a query value, or only in their opaque part
 func vpH_C13_step_id_forms() {
